@@ -199,7 +199,14 @@ func runC17(c *engine.Ctx) {
 					continue
 				}
 				bo, ok := ifi.Cond.(*ssa.BinOp)
-				if !ok || !isLoadOfField(bo.X, refcnt) {
+				if !ok {
+					continue
+				}
+				if !isLoadOfField(bo.X, refcnt) && isLoadOfField(bo.Y, refcnt) {
+					// written the other way round (0 >= refcnt): mirror it
+					bo = &ssa.BinOp{Op: flipOp(bo.Op), X: bo.Y, Y: bo.X}
+				}
+				if !isLoadOfField(bo.X, refcnt) {
 					continue
 				}
 				k, _ := engine.ConstInt(bo.Y)
